@@ -1,8 +1,7 @@
 /-
 C11 — lexical forms of xs:dateTime, xs:date, xs:time (datatypes/datetime.py): a recogniser for the
 `pattern`s of the classes with the value extraction of `fromstring`, and the string forms (`__str__`).
-Core Lean only.  The timezone group and its rendering are C10's `Lex.matchTz/tzParse/tzCanon`
-(EPV/Model/Lexical.lean, imported read-only).
+Core Lean only (no import of another property's module).
 
 DateTime.pattern:
   ^(?P<year>-?[0-9]*[0-9]{4})-(?P<month>[0-9]{2})-(?P<day>[0-9]{2})
@@ -13,12 +12,74 @@ The pattern is deterministic from the left: the year digits, the fraction digits
 digits, every other field has a fixed width.
 -/
 import EPV.Model.Calendar
-import EPV.Model.Lexical
-namespace EPV.Cal
-open EPV.Lex (Str)
 
-/-- `datetime_string.strip(' \\t\\n\\r')` (fix-c11-2: XML white space only) = C10's `Lex.pyStrip` -/
-def pyStripAll (s : Str) : Str := EPV.Lex.pyStrip s
+/-! ### white space and the timezone group
+
+C11's own transcription (kept independent of the other properties' modules so that the builds do not depend on each
+other; C10's `EPV.Lex` has the same definitions and proves more about them: exhaustiveness of the lexical space). -/
+namespace EPV.CalLex
+
+abbrev Str := List Char
+
+/-- `' \t\n\r'`: XML white space -/
+def pyWhiteCPs : List Nat := [9, 10, 13, 32]
+def isPyWhite (c : Char) : Bool := pyWhiteCPs.contains c.toNat
+def isPyStripWhite (c : Char) : Bool := isPyWhite c
+
+/-- `s.strip(' \t\n\r')` -/
+def pyStrip (s : Str) : Str :=
+  ((s.dropWhile isPyStripWhite).reverse.dropWhile isPyStripWhite).reverse
+
+def isDigit (c : Char) : Bool := c.isDigit
+
+/-- Python `int(ds)` for a string of ASCII digits -/
+def digitsVal (ds : Str) : Nat := Nat.ofDigitChars 10 ds 0
+
+/-- Python `int(s)` restricted to strings matching `^[\-+]?[0-9]+$` -/
+def intOfLex (s : Str) : Int :=
+  match s with
+  | '-' :: r => - (digitsVal r : Int)
+  | '+' :: r => (digitsVal r : Int)
+  | r => (digitsVal r : Int)
+
+/-- the `tzinfo` group of every date/time pattern (full match): `Z|[+-](?:(?:0[0-9]|1[0-3]):[0-5][0-9]|14:00)` -/
+def matchTz : Str → Bool
+  | ['Z'] => true
+  | [sg, a, b, c, d, e] =>
+    (sg == '+' || sg == '-') &&
+    (((((a == '0' && isDigit b) || (a == '1' && ('0' ≤ b && b ≤ '3'))) && c == ':') &&
+        ('0' ≤ d && d ≤ '5') && isDigit e) ||
+     (a == '1' && b == '4' && c == ':' && d == '0' && e == '0'))
+  | _ => false
+
+/-- `Timezone.fromstring` (datetime.py:57-70) on a text matched by the group, in minutes:
+`hours, minutes = text.split(':')`; when `hours.startswith('-')` the offset is
+`timedelta(hours=int(hours), minutes=-int(minutes))` (so `-00:30` is −30), else `+`; `'Z'` is 0 -/
+def tzOfLex : Str → Int
+  | ['Z'] => 0
+  | [sg, a, b, _, d, e] =>
+    if sg == '-' then intOfLex [sg, a, b] * 60 - (digitsVal [d, e] : Int)
+    else intOfLex [sg, a, b] * 60 + (digitsVal [d, e] : Int)
+  | _ => 0
+
+def tzParse (s : Str) : Option Int := if matchTz s then some (tzOfLex s) else none
+
+/-- two decimal digits, zero padded (`'{:02d}'`) -/
+def twoDigits (n : Nat) : Str :=
+  if n < 10 then '0' :: Nat.toDigits 10 n else Nat.toDigits 10 n
+
+/-- `Timezone.tzname` / `__str__` (datetime.py:102-115): `'Z'` for a zero offset, else sign, `hh:mm` of the absolute value -/
+def tzCanon (m : Int) : Str :=
+  if m == 0 then ['Z']
+  else (if m < 0 then '-' else '+') :: (twoDigits (m.natAbs / 60) ++ ':' :: twoDigits (m.natAbs % 60))
+
+end EPV.CalLex
+
+namespace EPV.Cal
+open EPV.CalLex (Str)
+
+/-- `datetime_string.strip(' \\t\\n\\r')` (fix-c11-2: XML white space only) -/
+def pyStripAll (s : Str) : Str := EPV.CalLex.pyStrip s
 
 /-- value of a run of ASCII digits (`int(...)`) -/
 def digitsVal (ds : Str) : Nat := Nat.ofDigitChars 10 ds 0
@@ -59,7 +120,7 @@ def parseTimeBody (s : Str) : Option (Nat × Nat × Nat × Option Str × Str) :=
 
 /-- the optional `tzinfo` group followed by the end of the string -/
 def parseTzTail (s : Str) : Option (Option Int) :=
-  if s.isEmpty then some none else (EPV.Lex.tzParse s).map some
+  if s.isEmpty then some none else (EPV.CalLex.tzParse s).map some
 
 /-- `fromstring`: `microseconds += '0' * (6 - len(microseconds)); int(microseconds[:6])` (padding on the right,
 truncation — not rounding — beyond six digits) -/
@@ -196,7 +257,7 @@ def fmtTimeOfDay (us : Int) : Str :=
   pad 2 (u / 3600000000) ++ ':' :: pad 2 (u / 60000000 % 60) ++ ':' :: pad 2 (u / 1000000 % 60) ++
     (if u % 1000000 = 0 then [] else '.' :: rstrip0 (pad 6 (u % 1000000)))
 
-def fmtTz (tz : Option Int) : Str := match tz with | none => [] | some z => EPV.Lex.tzCanon z
+def fmtTz (tz : Option Int) : Str := match tz with | none => [] | some z => EPV.CalLex.tzCanon z
 
 def fmtDateBody (v11 : Bool) (v : DT) : Str :=
   fmtYear v11 v.year ++ '-' :: pad 2 v.month.toNat ++ '-' :: pad 2 v.day.toNat
